@@ -19,6 +19,9 @@ def run(model, rep, tier):
     r3_in_order_flush(ctx, rep)
     r4_deferral(ctx, rep)
     c03.r5_one_process_per_layer(ctx, rep, R='C06.R5')
+    rep.rule('C06.R6', 'the outcome of a layer run in a child reaches the parent unchanged in kind and number: wire '
+             'agreement of the report (header roles, block order, as many entries as announced)')
+    c07.r1_r2_wire(ctx, rep, R1='C06.R6', R2='C06.R6')
     rep.units['cfg'] = ctx.cfg_stats
 
 
